@@ -32,6 +32,15 @@ def check(run, driver):
         run.oblige("ObC19 logistic_map regenerated from the source = model's logistic, for all rationals (ring)", ok, out if not ok else "")
     except gen_tables.Untranslatable as e:
         run.extra["translator"] = f"UNTRANSLATABLE ({e}) -- logistic_map is no longer a single arithmetic return; the obligation is not established on this run and the property is decided by the one-step replay and the range check alone"
+    # ---- translator: the update statement of the time loop, by symbolic matrix algebra over the CURRENT source (transposes tracked),
+    #      as a function of (sigma, f_i, (W f)_i); the model's stepRow -- the function step_mem / orbit_mem are about -- must be that function
+    try:
+        src = gen_tables.logistic_step_obligation_source()
+        ok, out = gen_tables.obligation_standalone("ObC19b", src)
+        run.oblige("ObC19b update statement of logisic_dynamics regenerated from the source (symbolic matrix algebra) = model's stepRow through the ROW-normalised matrix, for all sigma, f, rows (ring)", ok, out if not ok else "")
+        run.extra["translator_step"] = "update statement translated"
+    except gen_tables.Untranslatable as e:
+        run.extra["translator_step"] = f"UNTRANSLATABLE ({e}) -- the update is outside the recognised shape; the obligation is not established on this run and the property is decided by the one-step replay and the range check alone"
     configs = [dict()]  # default call
     rng = run.rng
     for n in (1, 2, 3):
